@@ -16,6 +16,10 @@ use flatty::{
 
 pub trait ZooMsg: Flat + FlatDefault + 'static {
     const NAME: &'static str;
+    /// Full name (generic families add their parameters).
+    fn name() -> String {
+        Self::NAME.to_string()
+    }
     /// Generate a value (container lengths bounded by `g.scale`).
     fn gen(g: &mut Gen) -> Val;
     /// Emplace `v` through the library's real emplacers.
@@ -56,7 +60,7 @@ pub fn note_invalid(what: &'static str) {
 pub fn take_invalid() -> Option<&'static str> {
     INVALID.with(|c| c.take())
 }
-fn rd_bool(b: &Bool) -> Val {
+pub fn rd_bool(b: &Bool) -> Val {
     let raw = unsafe { *(b as *const Bool as *const u8) };
     if raw > 1 {
         note_invalid("Bool byte is neither 0 nor 1");
@@ -64,7 +68,7 @@ fn rd_bool(b: &Bool) -> Val {
     }
     Val::B(raw == 1)
 }
-fn rd_str<L: Flat + string::Length>(s: &FlatString<L>) -> Val {
+pub fn rd_str<L: Flat + string::Length>(s: &FlatString<L>) -> Val {
     if s.len() > s.capacity() {
         note_invalid("string len > capacity");
         return Val::S(String::new());
@@ -78,7 +82,7 @@ fn rd_str<L: Flat + string::Length>(s: &FlatString<L>) -> Val {
         }
     }
 }
-fn rd_vec<T: Flat + Sized, L: Flat + vec::Length>(v: &FlatVec<T, L>, f: impl Fn(&T) -> Val) -> Val {
+pub fn rd_vec<T: Flat + Sized, L: Flat + vec::Length>(v: &FlatVec<T, L>, f: impl Fn(&T) -> Val) -> Val {
     if v.len() > v.capacity() {
         note_invalid("vector len > capacity");
         return Val::L(vec![]);
@@ -89,7 +93,7 @@ fn rd_vec<T: Flat + Sized, L: Flat + vec::Length>(v: &FlatVec<T, L>, f: impl Fn(
 // ---------------------------------------------------------------------------------------------
 // generic builder ops on containers
 
-fn tweak_vec<T: Flat + Sized, L: Flat + vec::Length>(v: &mut FlatVec<T, L>, g: &mut Gen, mut mk: impl FnMut(&mut Gen) -> T) {
+pub fn tweak_vec<T: Flat + Sized, L: Flat + vec::Length>(v: &mut FlatVec<T, L>, g: &mut Gen, mut mk: impl FnMut(&mut Gen) -> T) {
     let n = g.pick(3) as usize;
     for _ in 0..n {
         match g.weighted(&[4, 2, 1, 1, 2]) {
@@ -114,7 +118,7 @@ fn tweak_vec<T: Flat + Sized, L: Flat + vec::Length>(v: &mut FlatVec<T, L>, g: &
     }
 }
 
-fn tweak_str<L: Flat + string::Length>(s: &mut FlatString<L>, g: &mut Gen) {
+pub fn tweak_str<L: Flat + string::Length>(s: &mut FlatString<L>, g: &mut Gen) {
     match g.weighted(&[3, 2, 1]) {
         0 => {
             let _ = s.push_str(&g.string(3));
@@ -126,7 +130,7 @@ fn tweak_str<L: Flat + string::Length>(s: &mut FlatString<L>, g: &mut Gen) {
     }
 }
 
-fn tweak_flex<T: ZooMsg + ?Sized, L: Flat + vec::Length>(v: &mut FlexVec<T, L>, g: &mut Gen) {
+pub fn tweak_flex<T: ZooMsg + ?Sized, L: Flat + vec::Length>(v: &mut FlexVec<T, L>, g: &mut Gen) {
     let n = g.pick(3) as usize;
     for _ in 0..n {
         match g.weighted(&[4, 2, 1, 1, 1, 2]) {
@@ -154,13 +158,13 @@ fn tweak_flex<T: ZooMsg + ?Sized, L: Flat + vec::Length>(v: &mut FlexVec<T, L>, 
     }
 }
 
-fn read_flex<T: ZooMsg + ?Sized, L: Flat + vec::Length>(v: &FlexVec<T, L>) -> Val {
+pub fn read_flex<T: ZooMsg + ?Sized, L: Flat + vec::Length>(v: &FlexVec<T, L>) -> Val {
     Val::L(v.iter().map(|x| x.read()).collect())
 }
-fn emplace_flex<'b, T: ZooMsg + ?Sized, L: Flat + vec::Length>(bytes: &'b mut [u8], v: &Val) -> Result<&'b mut FlexVec<T, L>, Error> {
+pub fn emplace_flex<'b, T: ZooMsg + ?Sized, L: Flat + vec::Length>(bytes: &'b mut [u8], v: &Val) -> Result<&'b mut FlexVec<T, L>, Error> {
     FlexVec::<T, L>::new_in_place(bytes, flex::FromIterator::new(v.list().iter().map(|x| emp::<T>(x))))
 }
-fn gen_flex<T: ZooMsg + ?Sized>(g: &mut Gen) -> Val {
+pub fn gen_flex<T: ZooMsg + ?Sized>(g: &mut Gen) -> Val {
     let n = g.len().min(6);
     let inner_scale = g.scale.min(4);
     Val::L((0..n).map(|_| T::gen(&mut Gen::new(g.d, g.st, inner_scale))).collect())
@@ -892,7 +896,7 @@ impl ZooMsg for Pad3 {
 // ---------------------------------------------------------------------------------------------
 // T19: arrays of content-constrained items (in a field walk and as vector items)
 
-fn rd_mode(m: &Mode) -> Val {
+pub fn rd_mode(m: &Mode) -> Val {
     let raw = unsafe { *(m as *const Mode as *const u8) };
     if raw > 2 {
         note_invalid("C-like enum tag out of range");
@@ -900,7 +904,7 @@ fn rd_mode(m: &Mode) -> Val {
     }
     Val::T(raw as u32)
 }
-fn mk_mode(v: &Val) -> Mode {
+pub fn mk_mode(v: &Val) -> Mode {
     match v.tag() {
         0 => Mode::X,
         1 => Mode::Y,
@@ -1079,8 +1083,9 @@ impl ZooMsg for ArrLast {
 
 // ---------------------------------------------------------------------------------------------
 
-pub const N_TYPES: usize = 24;
-pub const TYPE_NAMES: [&str; N_TYPES] = [
+pub const N_HAND: usize = 24;
+pub const N_TYPES: usize = N_HAND + crate::zoo_gen_list::N_GEN;
+pub const HAND_NAMES: [&str; N_HAND] = [
     "TestMsg",
     "PadTail",
     "Wide",
@@ -1106,6 +1111,14 @@ pub const TYPE_NAMES: [&str; N_TYPES] = [
     "FlatVec<Mode,u8>",
     "ArrLast",
 ];
+
+pub fn type_name(idx: usize) -> &'static str {
+    if idx < N_HAND {
+        HAND_NAMES[idx]
+    } else {
+        crate::zoo_gen_list::GEN_NAMES[(idx - N_HAND) % crate::zoo_gen_list::N_GEN]
+    }
+}
 
 /// Dispatch a generic call over the zoo by index.
 #[macro_export]
@@ -1135,7 +1148,8 @@ macro_rules! with_zoo_type {
             20 => $f::<$crate::zoo::PFlexS>($($args),*),
             21 => $f::<$crate::zoo::PFlexV>($($args),*),
             22 => $f::<$crate::zoo::ModeVec>($($args),*),
-            _ => $f::<$crate::zoo::ArrLast>($($args),*),
+            23 => $f::<$crate::zoo::ArrLast>($($args),*),
+            i => $crate::with_zoo_gen_type!(i - 24, $f, $($args),*),
         }
     };
 }
